@@ -75,9 +75,11 @@ extern int mpt_outdata_recv(MPT_STRUCT(outdata) *out)
 	}
 	/* get data from socket */
 	if ((len = recvmsg(out->sock._id, &mh, 0)) < 0) {
+		buf->_used = 0;
 		return MPT_ERROR(BadOperation);
 	}
 	if (len < out->_idlen) {
+		buf->_used = 0;
 		return MPT_ERROR(MissingData);
 	}
 	buf->_used = len;
